@@ -155,7 +155,7 @@ func validatesAddress(fn *ssa.Function, path string, depth int) bool {
 	if depth > 7 || fn.Blocks == nil || len(fn.Params) == 0 {
 		return false
 	}
-	recv := "p:" + fn.Params[0].Name()
+	recv := "p:" + paramName(fn.Params[0])
 	parts := strings.Split(path, ".")
 	var good []*ssa.Call
 	for _, call := range callsIn(fn, false) {
